@@ -231,7 +231,9 @@ fn cases(tier: Tier) -> Vec<TextCase> {
                 for bl in 0..4u8 {
                     for lh in [(1, 100), (1, 150), (0, 0), (0, 7)] {
                         for (ul, st) in [(0u8, 0u8), (1, 0), (0, 2), (2, 1)] {
-                            for (tc, bg) in [(true, true), (true, false)] {
+                            // also without a text colour: background only, decorations only, nothing at all (the returned
+                            // positions and the layout of what is painted must not depend on the colours)
+                            for (tc, bg) in [(true, true), (true, false), (false, true), (false, false)] {
                                 let pos = if (al + bl) % 2 == 0 { (3, -4) } else { (-30, 11) };
                                 v.push(TextCase { font: font_name(f), text: s.to_string(), text_color: tc, bg, underline: ul, strike: st, baseline: bl, align: al, lh, pos });
                             }
